@@ -7,6 +7,7 @@ import SaModel.Lemmas.C03Shape
 import SaModel.Lemmas.C03Faithful
 import SaModel.Lemmas.Utf8
 import SaModel.Lemmas.C03PXNew
+import SaModel.Lemmas.C03Final
 /-
 C03 — every produced array is a well-formed Arrow array of the declared field.
 
@@ -390,7 +391,7 @@ theorem root_facts (ext : Ext) (fields : List Field) (rows : List SVal) (root : 
   have hf := Lemmas.C03.Faithful_of_strict root hstrict hshape
   exact ⟨hb, hf, Lemmas.C03.Faithful_Sound root hw hf, runRows_PX ext fields rows root hrun⟩
 
-/-- **C03 (partial), in the form closest to the final statement.**  For fields whose Map types have exactly two entry
+/-- **C03 (partial), with the numeric-range / Utf8View part of the state left as a hypothesis (`hrest`).**  For fields whose Map types have exactly two entry
 children (`Map2F`), without `FixedSizeBinary(0)` and with integer dictionary keys (`SchemaOKF`): every array
 `to_marrow` returns is a well-formed array of its field (`Spec.WF`), there is one per field, and all have the same
 number of rows.
@@ -405,7 +406,7 @@ and what stays assumed about the final state:
   * `hrest`   `WFXrest root`: leaf values within the physical range of their type (integers: `tryInto`; float bit
               patterns < 2^16/2^32/2^64: a property of `Basic/Float.lean` and of well-formed `SVal` floats; temporal
               values parsed by `Ext`: within i32/i64), and Utf8View slots valid UTF-8 (needs buffers < 4 GiB). -/
-theorem C03_wf_partial (ext : Ext) (fields : List Field) (rows : List SVal) (arrs : List Arr)
+theorem C03_wf_rest_partial (ext : Ext) (fields : List Field) (rows : List SVal) (arrs : List Arr)
     (hmap : ∀ f ∈ fields, Lemmas.C03.Map2F f) (hschema : ∀ f ∈ fields, Lemmas.C03.SchemaOKF f)
     (hpush : ∀ (x : SVal) (b b' : B), push ext b x = .ok b' → takeRest b' = takeRest b)
     (hwfb : ∀ root, runRows ext fields rows = .ok root → WFB root)
@@ -423,6 +424,55 @@ theorem C03_wf_partial (ext : Ext) (fields : List Field) (rows : List SVal) (arr
   · intro root hr
     exact Lemmas.C03.WFX_of_PX root
       (root_facts ext fields rows root hmap hschema hpush (hwfb root hr) (hstrict root hr) hr).2.2.2 (hrest root hr)
+
+/-- leaf values stay within the physical range of their type (explicit assumptions: `ExtOK`, `FloatOK`, `SValOK`) -/
+theorem push_LR (ext : Ext) (he : Lemmas.C03.ExtOK ext) (hf : Lemmas.C03.FloatOK) (x : SVal) (b b' : B)
+    (hx : Lemmas.C03.SValOK x) (h : push ext b x = .ok b') (hp : Lemmas.C03.LR b) : Lemmas.C03.LR b' :=
+  Lemmas.C03.push_LR ext he hf x b b' hx h hp
+
+/-- what `push_scalar_value` of a bytes-view builder writes designates the pushed bytes -/
+theorem decodeView_inline (bufs : List Bytes) (data : Bytes) (h : data.length ≤ 12) :
+    decodeView bufs (packInline data) = .ok data :=
+  Lemmas.C03.decodeView_inline bufs data h
+
+theorem decodeView_extern (buf data : Bytes) (hlen : 12 < data.length) (hsmall : (buf ++ data).length < 2 ^ 32) :
+    decodeView [buf ++ data] (packExtern data 0 buf.length) = .ok data :=
+  Lemmas.C03.decodeView_extern buf data hlen hsmall
+
+/-- **C03 (partial), in the form closest to the final statement.**  For
+  * fields whose Map types have exactly two entry children (`Map2F`), without `FixedSizeBinary(0)` and with integer
+    dictionary keys (`SchemaOKF`) — each exclusion is a recorded finding with a witness in this file,
+  * rows that are well-formed serde values (`SValOK`: an `iN`/`uN`/`f32`/`f64` call carries a value of that width),
+  * `Ext` results that fit in 64 bits (`ExtOK`) and IEEE conversions that return patterns of the target width
+    (`FloatOK`: a closed statement about `Basic/Float.lean`, not proved),
+  * bytes-view buffers below 4 GiB in the final state (`ViewSmall`; descriptors hold 32-bit lengths/offsets),
+every array `to_marrow` returns is a well-formed array of its field (`Spec.WF`), there is one per field, and all have
+the same number of rows.
+
+Proved here, without further assumptions: the physical layer (`finish_wf`, `finish_decodeP`), shape preservation
+modulo `push_takeRest`, and the push invariants `PX` (offsets / UTF-8 / view descriptors) and `LR` (value ranges).
+Interface hypotheses, each discharged by one `exact` after the merge with agent-refine:
+  * `hpush   := Build.push_takeRest ext`                       (Lemmas/C10TakePush.lean)
+  * `hwfb`    the refinement theorem (`WFB` preserved by `push`, holds of the fresh root)
+  * `hstrict` the strict dictionary clause of that `WFB` (`StrictDict`: a recursion over `WFB`) -/
+theorem C03_wf_partial (ext : Ext) (fields : List Field) (rows : List SVal) (arrs : List Arr)
+    (hmap : ∀ f ∈ fields, Lemmas.C03.Map2F f) (hschema : ∀ f ∈ fields, Lemmas.C03.SchemaOKF f)
+    (hext : Lemmas.C03.ExtOK ext) (hfloat : Lemmas.C03.FloatOK) (hrows : ∀ x ∈ rows, Lemmas.C03.SValOK x)
+    (hpush : ∀ (x : SVal) (b b' : B), push ext b x = .ok b' → takeRest b' = takeRest b)
+    (hwfb : ∀ root, runRows ext fields rows = .ok root → WFB root)
+    (hstrict : ∀ root, runRows ext fields rows = .ok root → Lemmas.C03.StrictDict root)
+    (hsmall : ∀ root, runRows ext fields rows = .ok root → Lemmas.C03.ViewSmall root)
+    (h : toMarrow ext fields rows = .ok arrs) :
+    arrs.length = fields.length ∧
+    ∃ n : Nat, ∀ (j : Nat) (f : Field) (a : Arr), fields[j]? = some f → arrs[j]? = some a →
+      WF f a = true ∧ (decodeAll a).length = n := by
+  refine C03_wf_root_partial ext fields rows arrs hwfb ?_ ?_ ?_ h
+  · intro root hr
+    exact (root_facts ext fields rows root hmap hschema hpush (hwfb root hr) (hstrict root hr) hr).1
+  · intro root hr
+    exact (root_facts ext fields rows root hmap hschema hpush (hwfb root hr) (hstrict root hr) hr).2.2.1
+  · intro root hr
+    exact Lemmas.C03.runRows_WFX ext hext hfloat fields rows root hrows hr (hsmall root hr)
 
 theorem ArrFields_toList_decode : ∀ (x : ArrFields),
     x.toList.map (fun ma => decodeAll ma.2) = (decodeFields x).map (·.2)
